@@ -5,7 +5,8 @@
 //
 //	c13 decide <abstract input…> <issuerIdx> <derhex>      T2 + T3   real ParseResponseForCert vs the Lean decision model
 //	c13 resp   <ca> <mode> <inil> <algok> <template…> <keyKind> <reqAlgo>   T2 + T3   CreateResponse -> ParseResponse round trip (+ signingParamsForPublicKey model)
-//	c13 req    <ca> <hash> <serial> <nilopts>              T3        CreateRequest -> ParseRequest
+//	c13 xresp  <issuer name variant> <responder name variant> <the fields of resp>   T2 + T3   the same round trip over certificates with exotic names (xpki.go)
+//	c13 req    <ca> <hash> <serial> <nilopts>              T3        CreateRequest -> ParseRequest (ca >= 100: issuer with an exotic name, see entAt)
 //	c13 reqm   <hash> <namehash> <keyhash> <serial>        T3        Request.Marshal -> ParseRequest
 //	c13 tamper <ca> <cert n|serial> <from> <to> <nmask> <seed> <derhex>   T3  every single-byte mutation in [from,to)
 //	c13 tstruct <ca> <cert n|serial> <part> <nparts> <seed> <derhex>      T3  all 255 values at every structural position (tags, lengths, unused-bits octet, algorithm identifiers)
@@ -20,6 +21,7 @@ import (
 	"encoding/asn1"
 	"fmt"
 	"math/big"
+	"reflect"
 	"strconv"
 	"strings"
 	"sync"
@@ -115,7 +117,7 @@ func absFields(a abstract) (head string, singles string) {
 }
 
 func emitDecide(g *zv.Gen, der []byte, ca int, issuerNil bool, cert string) {
-	a := decodeAbs(der, pool()[ca])
+	a := decodeAbs(der, entAt(ca))
 	h, s := absFields(a)
 	g.Emitf("c13 decide %s %s %s %s %d %s", h, b01(!issuerNil), cert, s, ca, zv.Hex(der))
 	// the same case with the Lean side decoding the DER itself (ZV.Model.C13Der) instead of taking the abstract fields
@@ -129,7 +131,8 @@ func execDecide(f []string) zv.Out {
 	}
 	ca := atoi(f[15])
 	der := zv.UnHex(f[16])
-	iss := pool()[ca]
+	iss := entAt(ca)
+	orig := append([]byte{}, der...)
 	a := decodeAbs(der, iss)
 	h, s := absFields(a)
 	if h != strings.Join(f[1:12], " ") || s != f[14] {
@@ -151,13 +154,7 @@ func execDecide(f []string) zv.Out {
 		tags = append(tags, "decide:err:"+errClass(err))
 		return zv.Out{Go: "err", Tags: tags}
 	}
-	idx := -1
-	for i, x := range a.singles {
-		if x.this == r.ThisUpdate.Unix() && x.serial.Cmp(r.SerialNumber) == 0 && x.next == r.NextUpdate.Unix() {
-			idx = i
-			break
-		}
-	}
+	idx := idxOf(a, r)
 	out := zv.Out{Go: canon(r, idx), Tags: append(tags, "decide:ok", fmt.Sprintf("decide:ok-idx=%d/%d", idx, len(a.singles)))}
 	// T3, directly on the implementation: the sentences of the property
 	if issuer != nil {
@@ -184,7 +181,110 @@ func execDecide(f []string) zv.Out {
 	if cert == nil && len(a.singles) != 1 && out.Viol == "" {
 		out.Viol = "ParseResponse accepted a response that does not hold exactly one single response"
 	}
+	if out.Viol == "" {
+		out.Viol = decideRepeat(der, orig, a, r, cert, f[13], issuer, iss, &out)
+	}
 	return out
+}
+
+// idxOf: which single response of the independent decode a parsed Response is
+func idxOf(a abstract, r *ocsp.Response) int {
+	for i, x := range a.singles {
+		if x.this == r.ThisUpdate.Unix() && x.serial.Cmp(r.SerialNumber) == 0 && x.next == r.NextUpdate.Unix() {
+			return i
+		}
+	}
+	return -1
+}
+
+// decideRepeat — "inputs are only read, repeated calls agree", and the first-match sentence for EVERY serial of the
+// response (and the negation / an absent neighbour of each), all on the same byte slice and the same certificate objects:
+//   - the DER, the certificate and the issuer handed in are unchanged after the call;
+//   - the raw fields reported are the bytes of the DER (responder name, embedded certificate);
+//   - asking for each serial in turn returns the FIRST single response with exactly that serial (math/big.Cmp; sign
+//     matters) or an error if there is none; asking again for the original certificate gives the first answer again.
+func decideRepeat(der, orig []byte, a abstract, r *ocsp.Response, cert *x509.Certificate, certArg string, issuer *x509.Certificate, iss *ent, out *zv.Out) string {
+	if !bytes.Equal(der, orig) {
+		return "ParseResponseForCert modified the bytes handed in"
+	}
+	if cert != nil && cert.SerialNumber.String() != certArg {
+		return "ParseResponseForCert modified the certificate handed in"
+	}
+	if v := rawFieldsViol(iss); v != "" {
+		return "after ParseResponseForCert the issuer's " + v
+	}
+	if a.rtag == 1 && !bytes.Equal(r.RawResponderName, a.rid) {
+		return "RawResponderName is not the responder name of the DER"
+	}
+	if a.ncerts > 0 && (r.Certificate == nil || !bytes.Equal(r.Certificate.Raw, a.cert0)) {
+		return "Response.Certificate.Raw is not the first embedded certificate of the DER"
+	}
+	if !bytes.Equal(r.TBSResponseData, a.tbs) || !bytes.Equal(r.Signature, a.sig) {
+		return "TBSResponseData / Signature are not the bytes of the DER"
+	}
+	first := canon(r, idxOf(a, r))
+	if cert != nil {
+		asked := map[string]bool{}
+		var qs []*big.Int
+		for _, x := range a.singles {
+			for _, q := range []*big.Int{x.serial, new(big.Int).Neg(x.serial), new(big.Int).Add(x.serial, big.NewInt(1))} {
+				if !asked[q.String()] && len(qs) < 12 {
+					asked[q.String()] = true
+					qs = append(qs, q)
+				}
+			}
+		}
+		for _, q := range qs {
+			want := -1
+			for i, x := range a.singles {
+				if x.serial.Cmp(q) == 0 {
+					want = i
+					break
+				}
+			}
+			r2, err := ocsp.ParseResponseForCert(der, &x509.Certificate{SerialNumber: q}, issuer)
+			if want < 0 {
+				if err == nil {
+					return fmt.Sprintf("asked for serial %s, which is not in the response: got the entry for %s", q, r2.SerialNumber)
+				}
+				continue
+			}
+			// the entry may be refused for its own reasons (critical extension, unknown hash); if it is returned it must be the first match
+			if err == nil && (idxOf(a, r2) != want || r2.SerialNumber.Cmp(q) != 0) {
+				return fmt.Sprintf("asked for serial %s: got single response %d (serial %s), the first with that serial is %d", q, idxOf(a, r2), r2.SerialNumber, want)
+			}
+			if err == nil && r2.Status != wantStatus(a.singles[want]) {
+				return fmt.Sprintf("asked for serial %s: status %d, the first single response with that serial says %d", q, r2.Status, wantStatus(a.singles[want]))
+			}
+		}
+		out.Tags = append(out.Tags, "decide:all-serials-asked")
+	}
+	rAgain, err := ocsp.ParseResponseForCert(der, cert, issuer)
+	if err != nil {
+		return "the same call a second time fails: " + err.Error()
+	}
+	if again := canon(rAgain, idxOf(a, rAgain)); again != first {
+		return "the same call a second time gives " + again + " after " + first
+	}
+	if !bytes.Equal(rAgain.RawResponderName, r.RawResponderName) || !bytes.Equal(rAgain.ResponderKeyHash, r.ResponderKeyHash) ||
+		!bytes.Equal(rAgain.TBSResponseData, r.TBSResponseData) || !bytes.Equal(rAgain.Signature, r.Signature) ||
+		rAgain.SignatureAlgorithm != r.SignatureAlgorithm || !rAgain.ProducedAt.Equal(r.ProducedAt) || !extsEqual(rAgain.Extensions, r.Extensions) {
+		return "the same call a second time reports other raw fields"
+	}
+	if !bytes.Equal(der, orig) {
+		return "ParseResponseForCert modified the bytes handed in"
+	}
+	return ""
+}
+
+func wantStatus(x absSingle) int {
+	switch {
+	case x.good:
+		return ocsp.Good
+	case x.unk:
+		return ocsp.Unknown
+	}
+	return ocsp.Revoked
 }
 
 func errClass(err error) string {
@@ -198,7 +298,8 @@ func errClass(err error) string {
 	return "other"
 }
 
-var decSerials = []string{"5", "7", "9", "0", "-3", "1427247692705959881058285969449495136382746625", "340282366920938463463374607431768211455"}
+var decSerials = []string{"5", "7", "9", "0", "-3", "1427247692705959881058285969449495136382746625", "340282366920938463463374607431768211455",
+	"3", "-5", "-7", "128", "-128", "-1427247692705959881058285969449495136382746625"}
 
 func genDecide(g *zv.Gen) {
 	r := g.Rng
@@ -266,8 +367,10 @@ func genDecide(g *zv.Gen) {
 		switch k := r.Intn(10); {
 		case k < 2:
 			return "n"
-		case k < 9 && len(ss) > 0:
+		case k < 8 && len(ss) > 0:
 			return ss[r.Intn(len(ss))].serial.String()
+		case k < 9 && len(ss) > 0: // same magnitude, other sign
+			return new(big.Int).Neg(ss[r.Intn(len(ss))].serial).String()
 		}
 		return "4242"
 	}
@@ -304,6 +407,81 @@ func genDecide(g *zv.Gen) {
 					emitDecide(g, der, ca, inil, "n")
 					emitDecide(g, der, ca, inil, sp.singles[0].serial.String())
 				}
+			}
+		}
+	}
+	// serial lists of signed multi-entry responses (CreateResponse cannot build them): sign, magnitude, duplicates and the
+	// position of the matching entry.  Over {+N, -N, N+1} every list of length 2 and 3, and lists of length 4 with both
+	// signs twice, for N at the byte boundaries of the DER INTEGER (+128 = 00 80, -128 = 80; 255/256; 2^15; 2^63; a 20-byte
+	// serial); entries with the same magnitude carry different statuses; asked for +N, -N (and 0 / N+1 in turn).
+	mags := []string{"1", "7", "127", "128", "200", "255", "256", "32768", "9223372036854775808", "1427247692705959881058285969449495136382746625"}
+	if g.Quick {
+		mags = []string{"1", "128", "200", "256", "9223372036854775808", "1427247692705959881058285969449495136382746625"}
+	}
+	for mi, m := range mags {
+		N := bigOf(m)
+		alpha := []*big.Int{N, new(big.Int).Neg(N), new(big.Int).Add(N, big.NewInt(1))}
+		var lists [][]*big.Int
+		for a := 0; a < 3; a++ {
+			for b := 0; b < 3; b++ {
+				lists = append(lists, []*big.Int{alpha[a], alpha[b]})
+				for c := 0; c < 3; c++ {
+					lists = append(lists, []*big.Int{alpha[a], alpha[b], alpha[c]})
+				}
+			}
+		}
+		negM := new(big.Int).Neg(alpha[2])
+		lists = append(lists, []*big.Int{alpha[2], negM, alpha[1], alpha[0]}, []*big.Int{alpha[1], alpha[1], alpha[0], alpha[0]},
+			[]*big.Int{alpha[0], alpha[1], alpha[0], alpha[1]}, []*big.Int{negM, alpha[2], alpha[0], alpha[1]}, []*big.Int{big.NewInt(0), alpha[1], alpha[2], alpha[0]})
+		for li, l := range lists {
+			ca := (mi + li) % nCA
+			sp := &asmSpec{ca: ca, rtag: 1 + li%2, produced: base}
+			setup(sp, ca, []int{0, 1, 0, 3}[li%4])
+			for i, sn := range l {
+				x := asmSingle{serial: sn, this: base + int64(i)*3600 + int64(li), next: zeroTimeSec, revAt: base - 1000 - int64(i), reason: 1 + (li+i)%6, hash: []int{3, 5, 6, 7}[(li+i)%4]}
+				switch (li + i) % 3 {
+				case 0:
+					x.good = true
+				case 1:
+					x.rev = true
+				default:
+					x.unk = true
+				}
+				sp.singles = append(sp.singles, x)
+			}
+			der := assemble(sp)
+			emitDecide(g, der, ca, li%5 == 4, alpha[0].String())
+			emitDecide(g, der, ca, li%5 == 3, alpha[1].String())
+			switch li % 3 {
+			case 0:
+				emitDecide(g, der, ca, false, alpha[2].String())
+			case 1:
+				emitDecide(g, der, ca, false, negM.String())
+			}
+		}
+	}
+	// issuers and delegated responders whose names are not in Go's own encoding (xpki.go): direct, delegated and
+	// issuer-certificate-embedded responses, responder by name and by key hash
+	for v := range nameVarList {
+		for k := 0; k < g.N(2, 6); k++ {
+			ca := (v + k) % nCA
+			vR := (v + 1 + 5*k) % len(nameVarList)
+			xi, xr := xCA(ca, v), xResp(ca, v, vR)
+			if xi.e == nil || xr.e == nil || !xi.e.stdParsed || !xr.e.stdParsed {
+				continue // the independent decoder of decide lines is the standard library: names it refuses are covered by xresp lines
+			}
+			for mode := 0; mode < 3; mode++ {
+				sp := &asmSpec{ca: xIdx(ca, v), rtag: 1 + (k+mode)%2, produced: base, signer: xi.e}
+				switch mode {
+				case 1:
+					sp.signer, sp.certs = xr.e, [][]byte{xr.e.der}
+				case 2:
+					sp.certs = [][]byte{xi.e.der}
+				}
+				sp.singles = mkSingles(1 + (v+mode)%3)
+				der := assemble(sp)
+				emitDecide(g, der, xIdx(ca, v), false, "n")
+				emitDecide(g, der, xIdx(ca, v), k%2 == 1, sp.singles[len(sp.singles)-1].serial.String())
 			}
 		}
 	}
@@ -463,35 +641,85 @@ func execResp(f []string) zv.Out {
 	if len(f) != 19 {
 		panic("resp: wrong number of fields")
 	}
+	ca, mode := atoi(f[1]), atoi(f[2])
+	signer, rcert, embed := respSetup(ca, mode)
+	return execRespCore(f, pool()[ca], signer, rcert, embed, nil)
+}
+
+// xrespSetup: the signer arrangements 0..4 of respSetup over certificates with exotic names (xpki.go): issuer = xCA(ca, vI),
+// delegated responder = xResp(ca, vI, vR).
+func xrespSetup(ca, mode, vI, vR int) (iss, signer, responderCert, embed *ent, bad string) {
+	get := func(r *xentRec) *ent {
+		if r.e == nil && bad == "" {
+			bad = r.bad
+		}
+		return r.e
+	}
+	iss = get(xCA(ca, vI))
+	switch mode {
+	case 0:
+		return iss, iss, iss, nil, bad
+	case 1:
+		rs := get(xResp(ca, vI, vR))
+		return iss, rs, rs, rs, bad
+	case 2:
+		rs := get(xResp(ca, vI, vR))
+		return iss, rs, rs, nil, bad
+	case 3:
+		o := get(xResp((ca+1)%nCA, vI, vR))
+		return iss, o, o, o, bad
+	case 4:
+		return iss, iss, iss, iss, bad
+	}
+	panic("xresp: mode out of range")
+}
+
+// xresp line: vI vR + the fields of a resp line
+func execXResp(f []string) zv.Out {
+	if len(f) != 21 {
+		panic("xresp: wrong number of fields")
+	}
+	vI, vR := atoi(f[1]), atoi(f[2])
+	g := f[2:]
+	iss, signer, rcert, embed, bad := xrespSetup(atoi(g[1]), atoi(g[2]), vI, vR)
+	if bad != "" {
+		return zv.Out{Go: "unusable-certificate", Viol: "a certificate with name variant " + nameVarList[vI].name + " / " + nameVarList[vR].name + " is refused: " + bad}
+	}
+	return execRespCore(g, iss, signer, rcert, embed, []string{"xresp:issuer-name=" + nameVarList[vI].name, "xresp:responder-name=" + nameVarList[vR].name})
+}
+
+func execRespCore(f []string, iss, signer, rcert, embed *ent, xtags []string) zv.Out {
 	ca, mode, inil, algok := atoi(f[1]), atoi(f[2]), f[3] == "1", f[4] == "1"
 	status, serial := atoi(f[5]), bigOf(f[6])
 	this, next, revAt := atoi64(f[7]), atoi64(f[8]), atoi64(f[9])
 	reason, hash, crit := atoi(f[10]), atoi(f[11]), f[12] == "1"
 	sc, nsec, tz, nExt := atoi(f[13]), atoi64(f[14]), atoi(f[15]), atoi(f[16])
 	p := pool()
-	iss := p[ca]
-	signer, rcert, embed := respSetup(ca, mode)
 	if algok != algOK(signer, sc) || atoi(f[17]) != keyKind(signer) || atoi(f[18]) != int(sigChoices[sc].algo) {
 		return zv.Out{Go: "harness-inconsistency", Viol: "harness inconsistency: algok / key kind / requested algorithm on the line do not match signer and signature choice"}
 	}
 	loc := time.FixedZone("x", tz)
 	mk := func(sec int64) time.Time { return time.Unix(sec, nsec).In(loc) }
-	tmpl := ocsp.Response{Status: status, SerialNumber: serial, ThisUpdate: mk(this), RevokedAt: mk(revAt),
-		RevocationReason: crl.RevocationReasonCode(reason), IssuerHash: crypto.Hash(hash), SignatureAlgorithm: sigChoices[sc].algo}
-	if next != zeroTimeSec {
-		tmpl.NextUpdate = mk(next)
+	mkTmpl := func() ocsp.Response {
+		tmpl := ocsp.Response{Status: status, SerialNumber: new(big.Int).Set(serial), ThisUpdate: mk(this), RevokedAt: mk(revAt),
+			RevocationReason: crl.RevocationReasonCode(reason), IssuerHash: crypto.Hash(hash), SignatureAlgorithm: sigChoices[sc].algo}
+		if next != zeroTimeSec {
+			tmpl.NextUpdate = mk(next)
+		}
+		for i := 0; i < nExt; i++ {
+			tmpl.ExtraExtensions = append(tmpl.ExtraExtensions, zpkix.Extension{Id: []int{1, 3, 6, 1, 4, 1, 99999, 10 + i},
+				Value: append([]byte{4, byte(1 + i)}, bytes.Repeat([]byte{byte(i) ^ byte(this)}, 1+i)...)})
+		}
+		if crit {
+			tmpl.ExtraExtensions = append(tmpl.ExtraExtensions, zpkix.Extension{Id: []int{1, 3, 6, 1, 4, 1, 99999, 2}, Critical: true, Value: []byte{5, 0}})
+		}
+		if embed != nil {
+			tmpl.Certificate = embed.cert
+		}
+		return tmpl
 	}
-	for i := 0; i < nExt; i++ {
-		tmpl.ExtraExtensions = append(tmpl.ExtraExtensions, zpkix.Extension{Id: []int{1, 3, 6, 1, 4, 1, 99999, 10 + i},
-			Value: append([]byte{4, byte(1 + i)}, bytes.Repeat([]byte{byte(i) ^ byte(this)}, 1+i)...)})
-	}
-	if crit {
-		tmpl.ExtraExtensions = append(tmpl.ExtraExtensions, zpkix.Extension{Id: []int{1, 3, 6, 1, 4, 1, 99999, 2}, Critical: true, Value: []byte{5, 0}})
-	}
-	if embed != nil {
-		tmpl.Certificate = embed.cert
-	}
-	tags := []string{fmt.Sprintf("resp:mode=%d", mode), "resp:key=" + signer.name, fmt.Sprintf("resp:status=%d", status), fmt.Sprintf("resp:hash=%d", hash)}
+	tmpl, tmplRef := mkTmpl(), mkTmpl()
+	tags := append(xtags, fmt.Sprintf("resp:mode=%d", mode), "resp:key="+signer.name, fmt.Sprintf("resp:status=%d", status), fmt.Sprintf("resp:hash=%d", hash))
 	before := time.Now()
 	der, err := ocsp.CreateResponse(iss.cert, rcert.cert, tmpl, signer.key)
 	if err != nil {
@@ -518,6 +746,7 @@ func execResp(f []string) zv.Out {
 	if !inil {
 		issuer = iss.cert
 	}
+	derOrig := append([]byte{}, der...)
 	r, err := ocsp.ParseResponse(der, issuer)
 	bound := mode == 0 || mode == 1 || mode == 4
 	if err != nil {
@@ -574,8 +803,26 @@ func execResp(f []string) zv.Out {
 	if int(r.IssuerHash) != wantHash {
 		fail("issuer hash %d came back as %d", wantHash, int(r.IssuerHash))
 	}
-	if !bytes.Equal(r.RawResponderName, rcert.std.RawSubject) || r.ResponderKeyHash != nil {
-		fail("responder name differs from the responder certificate's subject")
+	if !bytes.Equal(r.RawResponderName, rcert.subj) || r.ResponderKeyHash != nil {
+		fail("responder name differs from the responder certificate's subject bytes (got %x, the certificate was made with %x)", r.RawResponderName, rcert.subj)
+	}
+	// the arguments are only read: template (deeply), certificates (every raw field against the bytes they were made from)
+	if !reflect.DeepEqual(tmpl, tmplRef) {
+		fail("CreateResponse modified the template handed in")
+	}
+	for _, e := range []*ent{iss, rcert, embed} {
+		if e != nil {
+			if v := rawFieldsViol(e); v != "" {
+				fail("after CreateResponse / ParseResponse: %s (%s)", v, e.name)
+			}
+		}
+	}
+	if !bytes.Equal(der, derOrig) {
+		fail("ParseResponse modified the bytes handed in")
+	}
+	if embed != nil && r.Certificate != nil && (!bytes.Equal(r.Certificate.RawSubject, embed.subj) || !bytes.Equal(r.Certificate.RawIssuer, embed.issuerSubj) ||
+		!bytes.Equal(r.Certificate.RawSubjectPublicKeyInfo, embed.spki)) {
+		fail("raw subject / issuer / public key of the parsed embedded certificate differ from the bytes the certificate was made with")
 	}
 	if len(r.Extensions) != len(tmpl.ExtraExtensions) {
 		fail("extensions: %d sent, %d parsed", len(tmpl.ExtraExtensions), len(r.Extensions))
@@ -598,8 +845,11 @@ func execResp(f []string) zv.Out {
 	if !a.basicOk || len(a.singles) != 1 {
 		fail("independent decode of the produced DER failed")
 	} else {
-		if !bytes.Equal(a.nameHashes[0], refHash(wantHash, iss.std.RawSubject)) {
-			fail("issuerNameHash is not H(issuer subject)")
+		if !bytes.Equal(a.nameHashes[0], refHash(wantHash, iss.subj)) {
+			fail("issuerNameHash is not H(issuer subject bytes)")
+		}
+		if a.rtag != 1 || !bytes.Equal(a.rid, rcert.subj) {
+			fail("the responder id in the DER is not [1] + the responder certificate's subject bytes")
 		}
 		if !bytes.Equal(a.keyHashes[0], refHash(wantHash, spkiBits(iss.std))) {
 			fail("issuerKeyHash is not H(issuer public key)")
@@ -654,6 +904,14 @@ func execResp(f []string) zv.Out {
 	}
 	if _, err := ocsp.ParseResponseForCert(der, &x509.Certificate{SerialNumber: new(big.Int).Add(serial, big.NewInt(1))}, issuer); err == nil {
 		fail("ParseResponseForCert accepted a response for another serial")
+	}
+	// the same parse again, on the same bytes and objects
+	if r3, err := ocsp.ParseResponse(der, issuer); err != nil || canon(r3, 0) != canon(r, 0) || !bytes.Equal(r3.RawResponderName, r.RawResponderName) ||
+		!bytes.Equal(r3.TBSResponseData, r.TBSResponseData) || !bytes.Equal(r3.Signature, r.Signature) || !extsEqual(r3.Extensions, r.Extensions) {
+		fail("ParseResponse on the same bytes a second time disagrees with the first")
+	}
+	if !bytes.Equal(der, derOrig) {
+		fail("parsing modified the bytes handed in")
 	}
 	// wrong issuer
 	if _, err := ocsp.ParseResponse(der, p[(ca+2)%nCA].cert); err == nil {
@@ -751,24 +1009,81 @@ func genResp(g *zv.Gen) {
 	}
 }
 
+// genXResp: CreateResponse -> ParseResponse over issuers / responders with exotic names.
+func genXResp(g *zv.Gen) {
+	r := g.Rng
+	nv := len(nameVarList)
+	serials := []string{"1", "128", "-129", "65535", "1427247692705959881058285969449495136382746624"}
+	emit := func(vI, vR, ca, mode int, inil bool, status int, serial string, hash, sc, nExt int) {
+		_, signer, _, _, bad := xrespSetup(ca, mode, vI, vR)
+		if bad != "" { // reported once through the line below; nothing else can be derived for it
+			g.Emitf("c13 xresp %d %d %d %d 0 0 0 1 1700000000 1700086400 1600000000 1 0 0 0 0 0 0 0 0", vI, vR, ca, mode)
+			return
+		}
+		g.Emitf("c13 xresp %d %d %d %d %s %s %d %s %d %d %d %d %d %s %d %d %d %d %d %d", vI, vR, ca, mode, b01(inil), b01(algOK(signer, sc)), status, serial,
+			1700000000+int64(vI), 1700086400+int64(vR), 1600000000, 1+(vI+vR)%10, hash, "0", sc, 0, 0, nExt, keyKind(signer), int(sigChoices[sc].algo))
+	}
+	hashes := []int{0, 3, 5, 6, 7}
+	for vI := 0; vI < nv; vI++ {
+		// the issuer itself answers (responder name = issuer name), with and without its certificate embedded
+		for ca := 0; ca < nCA; ca++ {
+			if g.Quick && (ca+vI)%2 == 1 {
+				continue
+			}
+			emit(vI, vI, ca, 0, ca%2 == 1, (vI+ca)%3, serials[(vI+ca)%len(serials)], hashes[(vI+ca)%5], 0, ca%3)
+			emit(vI, vI, ca, 4, ca%2 == 0, (vI+ca+1)%3, serials[(vI+ca+1)%len(serials)], hashes[(vI+ca+1)%5], 0, 0)
+		}
+		// delegated responder: every (issuer name, responder name) pair
+		for vR := 0; vR < nv; vR++ {
+			ca := (vI + 2*vR) % nCA
+			emit(vI, vR, ca, 1, (vI+vR)%4 == 3, (vI+vR)%3, serials[(vI+vR)%len(serials)], hashes[(vI*3+vR)%5], 0, (vI+vR)%2)
+			if vR == (vI+1)%nv {
+				emit(vI, vR, ca, 2, false, 0, "77", 0, 0, 0)
+				emit(vI, vR, ca, 2, true, 1, "78", 5, 0, 0)
+				emit(vI, vR, ca, 3, false, 0, "79", 0, 0, 0)
+				emit(vI, vR, ca, 3, true, 2, "80", 6, 0, 1)
+			}
+		}
+	}
+	n := g.N(300, 6000)
+	for i := 0; i < n; i++ {
+		sc := 0
+		if r.Chance(30) {
+			sc = r.Intn(len(sigChoices))
+		}
+		serial := serials[r.Intn(len(serials))]
+		if r.Chance(50) {
+			serial = new(big.Int).SetBytes(r.Bytes(1 + r.Intn(20))).String()
+		}
+		emit(r.Intn(nv), r.Intn(nv), r.Intn(nCA), r.Intn(5), r.Chance(20), r.Intn(3), serial, hashes[r.Intn(5)], sc, r.Intn(3))
+	}
+}
+
 // ---------------------------------------------------------------- requests
 
 func execReq(f []string) zv.Out {
 	ca, hash, serial, nilOpts := atoi(f[1]), atoi(f[2]), bigOf(f[3]), f[4] == "1"
-	iss := pool()[ca]
+	iss := entAt(ca)
 	var opts *ocsp.RequestOptions
 	if !nilOpts {
 		opts = &ocsp.RequestOptions{Hash: crypto.Hash(hash)}
 	} else {
 		hash = 0
 	}
-	der, err := ocsp.CreateRequest(&x509.Certificate{SerialNumber: serial}, iss.cert, opts)
+	subject := &x509.Certificate{SerialNumber: new(big.Int).Set(serial)}
+	der, err := ocsp.CreateRequest(subject, iss.cert, opts)
 	want := hash
 	if hash == 0 {
 		want = int(crypto.SHA1)
 	}
 	supported := hashIDOfOID(hashOID(want)) == want
 	tags := []string{fmt.Sprintf("req:hash=%d", hash)}
+	if ca >= xBase {
+		tags = append(tags, "req:issuer-name="+nameVarList[(ca-xBase)/nCA].name)
+	}
+	if v := rawFieldsViol(iss); v != "" || subject.SerialNumber.Cmp(serial) != 0 {
+		return zv.Out{Tags: tags, Viol: "CreateRequest modified its arguments: " + v}
+	}
 	if err != nil {
 		o := zv.Out{Tags: append(tags, "req:err-create")}
 		if supported {
@@ -789,8 +1104,8 @@ func execReq(f []string) zv.Out {
 	switch {
 	case int(q.HashAlgorithm) != want:
 		o.Viol = fmt.Sprintf("request hash %d came back as %d", want, int(q.HashAlgorithm))
-	case !bytes.Equal(q.IssuerNameHash, refHash(want, iss.std.RawSubject)):
-		o.Viol = "IssuerNameHash is not H(issuer subject)"
+	case !bytes.Equal(q.IssuerNameHash, refHash(want, iss.subj)):
+		o.Viol = "IssuerNameHash is not H(issuer subject bytes)"
 	case !bytes.Equal(q.IssuerKeyHash, refHash(want, spkiBits(iss.std))):
 		o.Viol = "IssuerKeyHash is not H(issuer public key bits)"
 	case q.SerialNumber.Cmp(serial) != 0:
@@ -850,6 +1165,20 @@ func genReq(g *zv.Gen) {
 		}
 		g.Emitf("c13 req %d 0 %s 1", ca, "12345")
 	}
+	// issuers with exotic names: the name hash is over the subject bytes as they stand in the certificate
+	for v := range nameVarList {
+		for ca := 0; ca < nCA; ca++ {
+			if xCA(ca, v).e == nil {
+				continue
+			}
+			for _, h := range []int{0, 3, 5, 6, 7} {
+				if g.Quick && (ca+h+v)%2 == 1 {
+					continue
+				}
+				g.Emitf("c13 req %d %d %s 0", xIdx(ca, v), h, serials[(v+ca+h)%len(serials)])
+			}
+		}
+	}
 	n := g.N(300, 20000)
 	for i := 0; i < n; i++ {
 		h := []int{3, 5, 6, 7}[r.Intn(4)]
@@ -870,6 +1199,8 @@ func exec(line string) zv.Out {
 		return execDecide(f[1:])
 	case "resp":
 		return execResp(f[1:])
+	case "xresp":
+		return execXResp(f[1:])
 	case "req":
 		return execReq(f[1:])
 	case "reqm":
@@ -896,6 +1227,7 @@ func gen(g *zv.Gen) {
 	pool()
 	genDecide(g)
 	genResp(g)
+	genXResp(g)
 	genReq(g)
 	genDer(g)
 	genRq(g)
@@ -905,5 +1237,5 @@ func gen(g *zv.Gen) {
 
 func init() {
 	zv.Register(&zv.Prop{ID: "C13", Topic: "c13", Gen: gen, Exec: exec, Timeout: 20 * time.Minute, // the all-positions x all-255-values tamper lines are heavy; on a loaded machine 2 min was not enough
-		Rule: "decide: hand-assembled OCSP responses (0..4 single responses with duplicate serials and every CHOICE-arm combination, 0..2 embedded certificates in 10 signer/certificate arrangements, good/corrupted signatures, signature BIT STRINGs declaring 1..7 unused bits over a value ending in zero bits, swapped TBS, responder by name/key hash/bad tag, status/type/trailing-data/truncation variants) x 6 issuers x issuer or nil x cert nil/matching/absent, decoded independently with the standard library into the model's abstract input; bytes: the same cases with the Lean side decoding the DER itself through its encoding/asn1 model and feeding the decision model (only the x509.ParseCertificate result and the three signature-primitive bits are taken from the line); resp: CreateResponse templates (issuers RSA-1024/2048, P-256, P-384, P-224, P-521 and delegated responders P-256, RSA-2048, RSA-1024, P-384, P-521, P-224 x 6 signer modes x default and each of 13 requested signature algorithms x status x reason x issuer hash x extensions x times incl. GeneralizedTime bounds, nanoseconds, zones) parsed back and compared field by field, the accept/refuse decision and the resulting SignatureAlgorithm compared with the Lean model of signingParamsForPublicKey, and each created response re-parsed with its signature BIT STRING re-declared with k unused bits (k up to the number of trailing zero bits), one flipped bit in TBS and signature, and a changed algorithm OID; req: CreateRequest/Marshal -> ParseRequest over all crypto.Hash ids; tstruct: ALL 255 values at every structural byte (tags, every length octet of every wrapper, unused-bits octets, algorithm identifiers, status, response type; 12 masks on the first/last content bytes and in the embedded certificate's outer algorithm) of responses of every issuer x {issuer-signed with >= 7 trailing zero signature bits, delegated, issuer-signed + certificate, hand-assembled two certificates / key-hash responder / 3 single responses}; tamper: every byte position of signed responses x walking-bit and random masks, all 255 values at every position of one response (thorough: of 18), random windows x 6-12 masks. An accepted mutant is a violation unless tbsResponseData, the signature BIT STRING (value, BitLength) and the signatureAlgorithm OID are byte-identical (by position in the original and by an independent decode of the mutant), every reported field is unchanged, golang.org/x/crypto/ocsp accepts it too, and the difference is one of: wrapper (length octets of EXPLICIT wrappers / algorithm parameters, which encoding/asn1 does not compare), trailing-cert (certificates after the first), cert-dropped (certs field no longer recognised AND the response verifies directly under the issuer with the standard library), cert-outer (first embedded certificate differs outside its tbsCertificate and signatureValue, both byte-identical). schema: the declarations of ocspRequest / responseASN1 / basicResponse (all nested types, field order, struct tags through the real parseFieldParameters) by reflection against the model's schema terms; der: the two asn1.Unmarshal calls of ParseResponseForCert on ocsp.go's own struct types (hook) against the Lean decode through its encoding/asn1 model at the schema terms of those types — responses of the assembler, hand-built responses with 0..4 single responses over every optional part (version, key-hash / odd responder ids, UTCTime in place of GeneralizedTime, zone offsets, NULL / absent / other algorithm parameters, unused signature bits, 0..2 certificates, 0..3 extensions with critical absent / TRUE / explicit FALSE, trailing elements), and mutants: a value set at EVERY identifier and length octet of the TLV tree, random single bytes, truncations; every decoded field is compared (status, type, TBS bytes, version, responder id, times as Unix seconds, hash OID and parameters, hashes, serial, CHOICE arms, reason, extensions, algorithm OID, signature bytes and BitLength, certificate count and sizes, both rests); rq: Request.Marshal bytes + ParseRequest of them; rqd: ParseRequest on marshalled requests, their header/random mutants and hand-built requests with version / requestor name / several entries; time: UTCTime / GeneralizedTime contents (boundary dates x leap years x zones, every position x substitutions / deletions / insertions, random fields) through asn1.Unmarshal into time.Time, with the standard library's encoding/asn1 as differential oracle (also for der). A case is one distinct line; a tamper/tstruct line covers a position set of one response."})
+		Rule: "decide: hand-assembled OCSP responses (0..4 single responses with duplicate serials and every CHOICE-arm combination, 0..2 embedded certificates in 10 signer/certificate arrangements, good/corrupted signatures, signature BIT STRINGs declaring 1..7 unused bits over a value ending in zero bits, swapped TBS, responder by name/key hash/bad tag, status/type/trailing-data/truncation variants) x 6 issuers x issuer or nil x cert nil/matching/absent, decoded independently with the standard library into the model's abstract input; bytes: the same cases with the Lean side decoding the DER itself through its encoding/asn1 model and feeding the decision model (only the x509.ParseCertificate result and the three signature-primitive bits are taken from the line); resp: CreateResponse templates (issuers RSA-1024/2048, P-256, P-384, P-224, P-521 and delegated responders P-256, RSA-2048, RSA-1024, P-384, P-521, P-224 x 6 signer modes x default and each of 13 requested signature algorithms x status x reason x issuer hash x extensions x times incl. GeneralizedTime bounds, nanoseconds, zones) parsed back and compared field by field, the accept/refuse decision and the resulting SignatureAlgorithm compared with the Lean model of signingParamsForPublicKey, and each created response re-parsed with its signature BIT STRING re-declared with k unused bits (k up to the number of trailing zero bits), one flipped bit in TBS and signature, and a changed algorithm OID; req: CreateRequest/Marshal -> ParseRequest over all crypto.Hash ids; tstruct: ALL 255 values at every structural byte (tags, every length octet of every wrapper, unused-bits octets, algorithm identifiers, status, response type; 12 masks on the first/last content bytes and in the embedded certificate's outer algorithm) of responses of every issuer x {issuer-signed with >= 7 trailing zero signature bits, delegated, issuer-signed + certificate, hand-assembled two certificates / key-hash responder / 3 single responses}; tamper: every byte position of signed responses x walking-bit and random masks, all 255 values at every position of one response (thorough: of 18), random windows x 6-12 masks. An accepted mutant is a violation unless tbsResponseData, the signature BIT STRING (value, BitLength) and the signatureAlgorithm OID are byte-identical (by position in the original and by an independent decode of the mutant), every reported field is unchanged, golang.org/x/crypto/ocsp accepts it too, and the difference is one of: wrapper (length octets of EXPLICIT wrappers / algorithm parameters, which encoding/asn1 does not compare), trailing-cert (certificates after the first), cert-dropped (certs field no longer recognised AND the response verifies directly under the issuer with the standard library), cert-outer (first embedded certificate differs outside its tbsCertificate and signatureValue, both byte-identical). schema: the declarations of ocspRequest / responseASN1 / basicResponse (all nested types, field order, struct tags through the real parseFieldParameters) by reflection against the model's schema terms; der: the two asn1.Unmarshal calls of ParseResponseForCert on ocsp.go's own struct types (hook) against the Lean decode through its encoding/asn1 model at the schema terms of those types — responses of the assembler, hand-built responses with 0..4 single responses over every optional part (version, key-hash / odd responder ids, UTCTime in place of GeneralizedTime, zone offsets, NULL / absent / other algorithm parameters, unused signature bits, 0..2 certificates, 0..3 extensions with critical absent / TRUE / explicit FALSE, trailing elements), and mutants: a value set at EVERY identifier and length octet of the TLV tree, random single bytes, truncations; every decoded field is compared (status, type, TBS bytes, version, responder id, times as Unix seconds, hash OID and parameters, hashes, serial, CHOICE arms, reason, extensions, algorithm OID, signature bytes and BitLength, certificate count and sizes, both rests); rq: Request.Marshal bytes + ParseRequest of them; rqd: ParseRequest on marshalled requests, their header/random mutants and hand-built requests with version / requestor name / several entries; time: UTCTime / GeneralizedTime contents (boundary dates x leap years x zones, every position x substitutions / deletions / insertions, random fields) through asn1.Unmarshal into time.Time, with the standard library's encoding/asn1 as differential oracle (also for der). xresp: the resp round trip over hand-assembled certificates whose subject / issuer DER is not Go's own encoding (19 name variants: UTF8String for ASCII, IA5, Teletex, BMP, Numeric, Universal strings, PrintableString with & and *, multi-valued RDNs sorted and unsorted, empty values, empty name, long-form lengths, non-string values, repeated types) as issuer (6 keys) x delegated responder, every (issuer name, responder name) pair x 5 signer arrangements: RawResponderName, the responder id and issuerNameHash inside the produced DER, and Raw / RawSubject / RawIssuer / RawSubjectPublicKeyInfo of issuer, responder and parsed embedded certificate are compared with the bytes the certificates were CONFIGURED from; req lines over the same issuers; decide/bytes lines with these certificates as issuer / signer / embedded certificate. decide serial lists: signed multi-entry responses for every list of length 2..3 over {+N, -N, N+1} and length-4 lists with both signs twice / zero, N at the DER INTEGER byte boundaries, equal magnitudes carrying different statuses, asked for +N, -N, N+1, -(N+1); random lists draw from +-pairs and ask for the negation of a listed serial. Repeat oracle (every accepted decide line, every resp/xresp line, rqd): on the SAME bytes and certificate objects ask for every serial of the response, its negation and successor (first exact match and its status, or error), repeat the original call (same answer and raw fields), and check DER, certificate, issuer raw fields and the CreateResponse template (DeepEqual with a second copy) unchanged. A case is one distinct line; a tamper/tstruct line covers a position set of one response."})
 }
